@@ -1342,8 +1342,17 @@ def _max(I, t, dim=None, keepdim=False):
     I.ex.ghost.setdefault("maxes", []).append({"max": mx, "argmax": w, "ub": ub, "att": att})
     return ST((), lambda: mx, t.dtype)
 
+METH["masked_fill_"] = _inplace(_masked_fill)
+
+
+def f_max(I, a, b=None, **k):
+    if isinstance(b, ST) or (b is not None and not isinstance(b, int)):
+        return ST.ew(I, ct.sc_max, a, b, dtype=a.dtype)
+    return _max(I, a, b, **k)
+
+
 METH["softmax"] = f_softmax
-FUNCS.update({"torch.nn.functional.one_hot": f_one_hot, "torch._C._nn.one_hot": f_one_hot, "torch.stack": f_stack, "torch.cat": f_cat, "torch.ones": f_ones, "torch.zeros": f_zeros, "torch.nn.functional.softmax": f_softmax, "torch.softmax": f_softmax, "torch.pow": f_pow, "torch.matmul": lambda I, a, b: _matmul(I, a, b), "torch.empty": f_empty, "torch.arange": f_arange, "torch.full": f_full, "torch.full_like": f_full_like, "torch.where": f_where, "torch.min": f_min, "torch.isfinite": f_isfinite, "torch.zeros_like": f_zeros_like, "torch.as_tensor": f_as_tensor})
+FUNCS.update({"torch.nn.functional.one_hot": f_one_hot, "torch._C._nn.one_hot": f_one_hot, "torch.stack": f_stack, "torch.cat": f_cat, "torch.ones": f_ones, "torch.zeros": f_zeros, "torch.nn.functional.softmax": f_softmax, "torch.softmax": f_softmax, "torch.pow": f_pow, "torch.matmul": lambda I, a, b: _matmul(I, a, b), "torch.empty": f_empty, "torch.arange": f_arange, "torch.full": f_full, "torch.full_like": f_full_like, "torch.where": f_where, "torch.min": f_min, "torch.isfinite": f_isfinite, "torch.zeros_like": f_zeros_like, "torch.as_tensor": f_as_tensor, "torch.max": f_max})
 
 
 def stubs():
